@@ -170,6 +170,41 @@ def run_job(req):
                         "tok_follows_str": all(o.__dask_tokenize__() == c.__dask_tokenize__() for o in twins)})
         return "s:" + nm(str(c))
 
+    H = {}       # values holding CRS instances: name -> (kind, object)
+
+    def mk_holder(hk, c):
+        import numpy as _np
+        from affine import Affine
+
+        from odc.geo import geom as _g
+        from odc.geo.gcp import GCPMapping
+        from odc.geo.geobox import GeoBox, GeoboxTiles
+        from odc.geo.gridspec import GridSpec
+
+        A0 = Affine(1.0, 0.0, 10.0, 0.0, -1.0, 20.0)
+        if hk == "bbox":
+            return _g.BoundingBox(0, 1, 2, 3, crs=c)
+        if hk == "gbox":
+            return GeoBox((3, 4), A0, c)
+        if hk == "geom":
+            return _g.point(1.0, 2.0, c)
+        if hk == "gridspec":
+            return GridSpec(c, (10, 10), 8)
+        if hk == "gcpmap":
+            pix = _np.array([(0, 0), (4, 0), (0, 3), (4, 3)], dtype="float64")
+            return GCPMapping(pix, pix * 2 + 10, c)
+        if hk == "gbt":
+            return GeoboxTiles(GeoBox((10, 10), A0, c), (5, 5))
+        raise ValueError(hk)
+
+    def holder_eq(a, b):
+        (ka, xa), (kb, xb) = a, b
+        if ka == "gcpmap":   # no == of its own: the CRS it holds decides
+            return bool(xa.crs == xb.crs)
+        if ka == "gbt":
+            return bool(xa == xb) and bool(xa.base.crs == xb.base.crs or (xa.base.crs is None and xb.base.crs is None))
+        return bool(xa == xb)
+
     def build(x, via_norm):
         """CRS(x), or the same through the argument normaliser every value type uses (norm_crs / norm_crs_or_error)"""
         if not via_norm:
@@ -242,6 +277,29 @@ def run_job(req):
                 V[v] = c
                 vsys[v], vlazy[v], vspec[v] = vsys[w], False, vspec[w]
                 obs.append("s:" + nm(str(c)))
+            elif kind == "hh":
+                # a value of the given type constructed with crs=<the instance>: it holds the instance itself
+                _, h, v, hk = op
+                H[h] = (hk, mk_holder(hk, V[v]))
+                got = H[h][1].base.crs if hk == "gbt" else H[h][1].crs
+                records.append({"k": "hold", "ok": got is V[v] or (got == V[v] and str(got) == str(V[v])), "kind": hk,
+                                "same_object": got is V[v], "spec": vspec[v]})
+                obs.append("-")
+            elif kind == "hn":
+                _, h, hk = op
+                H[h] = (hk, mk_holder(hk, None))
+                obs.append("-")
+            elif kind == "rh":
+                import copy as _copy
+                _, h2, h = op
+                H[h2] = (H[h][0], _copy.copy(H[h][1]))
+                obs.append("-")
+            elif kind == "he":
+                _, a, b = op
+                obs.append("T" if holder_eq(H[a], H[b]) else "F")
+            elif kind == "dl":
+                V.pop(op[1], None)
+                obs.append("-")
             elif kind == "dr":
                 V.pop(op[1], None)
                 obs.append("-")
